@@ -19,6 +19,7 @@ Section TyInd.
   Hypothesis HPtr : forall t, P t -> P (TPtr t).
   Hypothesis HPtrNil : forall t, P t -> P (TPtrNil t).
   Hypothesis HIface : P TIface.
+  Hypothesis HRaw : P TRaw.
   Fixpoint ty_ind2 (t : ty) : P t :=
     match t with
     | TUint w => HUint w | TBig => HBig | TBool => HBool | TBytes => HBytes | TByteArr n => HByteArr n
@@ -35,6 +36,7 @@ Section TyInd.
     | TPtr t' => HPtr t' (ty_ind2 t')
     | TPtrNil t' => HPtrNil t' (ty_ind2 t')
     | TIface => HIface
+    | TRaw => HRaw
     end.
 End TyInd.
 
@@ -132,7 +134,7 @@ Proof.
     assert (G : dec_fields tl fs is = Some l).
     { clear H. revert l is E. induction Hfs as [|f fs' Hf Hfs' IHfs]; intros l is E.
       - cbn [enc_fields] in E. cbn [dec_fields]. destruct tl as [t'|].
-        + destruct l as [|[ | | |vs| | ] [|? ?]]; try discriminate.
+        + destruct l as [|[ | | |vs| | | ] [|? ?]]; try discriminate.
           cbn [opt_P] in Htl. rewrite (map_opt_inv _ (dec_ty t') _ _ (fun x y _ => Htl x y) E). reflexivity.
         + destruct l; [|discriminate]. inversion E; reflexivity.
       - cbn [enc_fields] in E. destruct l as [|v l']; [discriminate|].
@@ -142,13 +144,14 @@ Proof.
     rewrite G. reflexivity.
   - intros t IH v i. cbn [enc_ty dec_ty]. apply IH.
   - intros t IH v i. destruct v eqn:Ev; cbn [enc_ty].
-    1-4,6: (destruct (enc_ty t _) as [j|] eqn:E; [|discriminate];
+    1-4,6,7: (destruct (enc_ty t _) as [j|] eqn:E; [|discriminate];
             destruct (is_empty_item j) eqn:Em; [discriminate|];
             intro H; inversion H; subst j;
             apply IH in E;
             destruct i as [[|? ?]|[|? ?]]; cbn [dec_ty]; try exact E; cbn in Em; discriminate).
     intro H; inversion H; subst. unfold nil_item. destruct (nil_is_list t) eqn:En; cbn [dec_ty]; rewrite En; reflexivity.
   - intros v i. destruct v; cbn [enc_ty]; try discriminate. intro E; inversion E; subst. reflexivity.
+  - intros v i. destruct v; cbn [enc_ty]; discriminate.
 Qed.
 
 (* ---------- decode then encode (canonicity of the typed layer) ---------- *)
@@ -172,6 +175,7 @@ Proof.
     cbn [dec_ty]. apply IH; [exact Hok|]. destruct t; try reflexivity; discriminate.
   - intros t _ i _ H. discriminate.
   - intros i _ _. cbn [dec_ty]. discriminate.
+  - intros i _ _. destruct i; cbn [dec_ty]; discriminate.
 Qed.
 
 Lemma bev_lt_pow b w : bytes_ok b -> len b <= w -> bev b < 256 ^ w.
@@ -246,6 +250,7 @@ Proof.
       cbn [enc_ty]. unfold nil_item. rewrite En. reflexivity.
     + cbn [dec_ty]. intro E. apply Gen; [exact E | reflexivity].
   - intros i v _ _. cbn [dec_ty]. intro E; inversion E; reflexivity.
+  - intros i v _ _. destruct i; cbn [dec_ty]; discriminate.
 Qed.
 
 (* ---------- lifted to bytes ---------- *)
